@@ -1,5 +1,6 @@
 """C14 - name, long name, positional path and letter case address the same child."""
 import random
+import collections
 
 from hv import tables as T
 from hv import lit
@@ -208,7 +209,25 @@ def check_negative(case):
     return out
 
 
+def check_longname(case):
+    """the long name the version's FIELDS table gives to exactly one field of a segment designates that field"""
+    Segment, Field, Component, Message, CNF, CNV = _imports()
+    v, s, fname, long_, val = case['v'], case['s'], case['fname'], case['long'], case['val']
+    try:
+        seg = Segment(s, version=v, validation_level=TOL)
+        setattr(seg, long_.lower(), val)
+        names = [c.name for c in seg.children]
+    except Exception as e:
+        return [('longname-of-fields-table-raises:%s' % type(e).__name__, '%s %s.%s (%s): %s' % (v, s, long_.lower(), fname, _exc(e)))]
+    if names != [fname]:
+        return [('longname-of-fields-table-designates-another-field', '%s: %s.%s = %r created %r; FIELDS gives this long name to %s only' % (
+            v, s, long_.lower(), val, names, fname))]
+    return []
+
+
 def check(case):
+    if case['kind'] == 'longname':
+        return check_longname(case)
     return check_negative(case) if case['kind'] == 'negative' else check_triple(case)
 
 
@@ -314,6 +333,17 @@ def _run_version(shard, acc):
                     _emit(acc, {'kind': 'triple', 'level': 'subcomponent', 'via': 'field-path', 'v': v, 's': s, 'fname': fname,
                                 'i': i, 'cname': cname, 'j': j, 'sname': sname, 'k': k, 'A': A, 'B': B, 'C': C, 'val': sval,
                                 'sigkey': 'fieldpath'}, True)
+        # long names as the FIELDS table of the version spells them (independent of the row the segment table points at)
+        fields_tab = T.lib(v).FIELDS
+        own = [(r[0], r[1], fields_tab.get(r[0])) for r in rows if r[1]]
+        cnt = collections.Counter(x[2][3].upper() for x in own if x[2] is not None and len(x[2]) > 3 and x[2][3])
+        rownames = set(r[0].upper() for r in rows)
+        for fname, i, fref in own:
+            ln = fref[3] if fref is not None and len(fref) > 3 else None
+            if s == 'MSH' or not ln or cnt[ln.upper()] != 1 or ln.upper() in rownames or not spell_ok(Segment, ln.lower()):
+                continue
+            _emit(acc, {'kind': 'longname', 'v': v, 's': s, 'fname': fname, 'i': i, 'long': ln,
+                        'val': lit.valid(lit.first_leaf_dt(T, v, fref), 0)}, True)
         # negative space for this segment
         if T.seg_fields(v, s)[-1][2][2] == 'varies':
             continue
